@@ -87,6 +87,16 @@ type gcSess struct {
 	// rewrite that has finished
 	curSel      map[string]bool
 	wbCompleted map[string]bool
+	// selFields: user-visible fields (meta without value-pointer/txn bits, user meta, expiry) of
+	// the entries the rewrite in progress selected, as the LSM served them before the write-back
+	selFields map[string]wbFields
+}
+
+type wbFields struct {
+	key         []byte
+	ver         uint64
+	meta, umeta byte
+	exp         uint64
 }
 
 func (s *gcSess) closeAll() {
@@ -145,6 +155,7 @@ func (s *gcSess) open(kv map[string]string) (string, error) {
 	s.inGc = false
 	s.curSel = map[string]bool{}
 	s.wbCompleted = map[string]bool{}
+	s.selFields = map[string]wbFields{}
 	mc, ms, _ := badger.VerifLimits(s.db)
 	return fmt.Sprintf("reset managed=%d keep=%d thr=%d levels=%d maxent=%d memsz=%d tblsz=%d basesz=%d now=%d maxcount=%d maxsize=%d",
 		b2i(s.managed), s.keep, s.thr, s.levels, s.maxent, memsz, tblsz, basesz, s.now, mc, ms), nil
@@ -353,12 +364,40 @@ func (s *gcSess) noteWriteBacks(fid uint32, gcTs uint64, done bool) {
 			m[r.Version] = gcTs
 		}
 		id := fmt.Sprintf("%s@%d", string(r.Key), r.Version)
+		if _, seen := s.selFields[id]; !seen {
+			s.selFields[id] = wbFields{key: r.Key, ver: r.Version, meta: e.Meta &^ (2 | 64 | 128), umeta: e.UserMeta, exp: e.ExpiresAt}
+		}
 		if done {
 			s.wbCompleted[id] = true
 		} else {
 			s.curSel[id] = true
 		}
 	}
+}
+
+// judgeWriteBackFields: after a rewrite every entry it moved reads back (at its own internal
+// key) with the same meta bits (value-pointer and transaction bits aside), user meta and expiry
+// as before the write-back.
+func (s *gcSess) judgeWriteBackFields(fid uint32, fail func(string, string)) {
+	ids := make([]string, 0, len(s.selFields))
+	for id := range s.selFields {
+		ids = append(ids, id)
+	}
+	sort.Strings(ids)
+	for _, id := range ids {
+		f := s.selFields[id]
+		e, ok, err := badger.VerifGetAtPtr(s.db, f.key, f.ver)
+		if err != nil || !ok || e.Version != f.ver {
+			continue // compacted away in the meantime
+		}
+		m := e.Meta &^ (2 | 64 | 128)
+		if m != f.meta || e.UserMeta != f.umeta || e.ExpiresAt != f.exp {
+			fail("C15-writeback-field-changed", fmt.Sprintf("GC rewrite of file %d: entry %s@%d had meta=%d (merge=%v discard-earlier=%v) userMeta=%d expiresAt=%d before the write-back, now meta=%d userMeta=%d expiresAt=%d",
+				fid, hx(f.key), f.ver, f.meta, f.meta&8 != 0, f.meta&4 != 0, f.umeta, f.exp, m, e.UserMeta, e.ExpiresAt))
+			break
+		}
+	}
+	s.selFields = map[string]wbFields{}
 }
 
 // ---------------------------------------------------------------- executor
@@ -570,6 +609,11 @@ func execGc(intents []string, st *Stats) (final, outs, oracle []string) {
 				if meta&4 != 0 {
 					e = e.WithDiscard()
 					sv.discard = true
+				}
+				if meta&8 != 0 {
+					// a merge-operator operand (what MergeOperator.Add writes)
+					e = badger.VerifWithMergeBit(e)
+					sv.merge = true
 				}
 				e.ExpiresAt = exp
 				err = tx.t.SetEntry(e)
@@ -805,6 +849,7 @@ func execGc(intents []string, st *Stats) (final, outs, oracle []string) {
 				continue
 			}
 			s.refreshIdx()
+			s.selFields = map[string]wbFields{}
 			fid := uint32(0)
 			if ratio > 0 && ratio < 1 {
 				fid = badger.VerifVlogPick(s.db, ratio)
@@ -839,6 +884,7 @@ func execGc(intents []string, st *Stats) (final, outs, oracle []string) {
 			}
 			emit(op, fmt.Sprintf("ok moved=%d del=%s", moved, del))
 			st.Inc("gc:real:" + del)
+			s.judgeWriteBackFields(fid, fail)
 			s.judgeReads(fmt.Sprintf("RunValueLogGC (file %d)", fid), pre, fail)
 			emit("vlog", s.vdump(fail))
 			emit("dump", s.pdump())
@@ -909,6 +955,7 @@ func execGc(intents []string, st *Stats) (final, outs, oracle []string) {
 			out := s.finishRun()
 			emit(line, out)
 			st.Inc("gc:end:" + strings.Join(strings.Fields(out)[:1], ""))
+			s.judgeWriteBackFields(fid, fail)
 			s.judgeReads(fmt.Sprintf("the GC write-back of file %d", fid), pre, fail)
 			s.inGc = false
 			for id := range s.curSel {
@@ -1023,6 +1070,7 @@ func (s *gcSess) compactGc(kv map[string]string, emit func(string, string), fail
 	}
 	s.judgeReads(what, pre, fail)
 	emit("dump", s.pdump())
+	s.judgeRetention(fail) // C13: merge operands and the retained run survive (also after write-backs)
 }
 
 // ---------------------------------------------------------------- generator
@@ -1113,10 +1161,16 @@ func genGcSession(rng *rand.Rand, st *Stats) []string {
 				meta, um, v = 1, 0, nil
 			case rng.Intn(12) == 0:
 				exp = now - 1000
-			case rng.Intn(12) == 0:
-				exp = now + 100000
-			case rng.Intn(12) == 0:
+			case rng.Intn(7) == 0:
+				exp = now + 100000 + uint64(rng.Intn(1000))
+			case rng.Intn(10) == 0:
 				meta = 4
+			case rng.Intn(6) == 0:
+				// merge-operator operand (never counted by the retention rule); sometimes with a TTL
+				meta = 8
+				if rng.Intn(4) == 0 {
+					exp = now + 200000
+				}
 			}
 			ops = append(ops, fmt.Sprintf("set %d %s %d %d %d %s 0", id, hx(k), meta, um, exp, hx(v)))
 		}
